@@ -64,9 +64,8 @@ Theorem C01_rrt_reports_only_real_paths :
   (forall a b c, dlt a b = true -> dlt b c = true -> dlt a c = true) -> (forall a, dlt a a = false) ->
   forall starts hits samples, starts <> [] ->
   let tree := fst (rrt_solve St D dist dlt steer mv sat gdist goal_state dflt starts hits samples) in
-  (forall i s, nth_error tree i = Some (s, None) -> (i < length starts)%nat /\ In s starts) /\
-  (forall i s p, nth_error tree i = Some (s, Some p) ->
-     (length starts <= i)%nat /\ (p < i)%nat /\ exists ps pp, nth_error tree p = Some (ps, pp) /\ mv ps s = true) /\
+  (forall i s, nth_error tree i = Some (s, None) -> In s starts) /\
+  (forall i s p, nth_error tree i = Some (s, Some p) -> (p < i)%nat /\ exists ps pp, nth_error tree p = Some (ps, pp) /\ mv ps s = true) /\
   match snd (rrt_solve St D dist dlt steer mv sat gdist goal_state dflt starts hits samples) with
   | Some (path, approx, dd) =>
       path <> [] /\ In (hd dflt path) starts /\ consecutive (fun a b => mv a b = true) path /\ dd = gdist (last path dflt) /\
